@@ -105,6 +105,8 @@ class Run:
     def verdict(self, prop: str, clause: str, dev, witness: dict, replay: dict | None = None):
         """Record a falsified predicate."""
         dev = sorted(set(dev or []))
+        if prop == "*":  # a clause every property of the specification relies on (an operation ended in an error no action predicts)
+            prop = self.prop
         if prop != self.prop:
             self.other_props[prop] = self.other_props.get(prop, 0) + 1
             return
